@@ -109,7 +109,7 @@ def run(tier, rep):
         _report(rep, "deep_G1_d1", out_d, 1)
         if tier == "thorough":
             # two deviations on the 2-node harnesses and the four shortest histories (about 5 000 schedules per job)
-            d2 = {k: v for k, v in deep.items() if k[0] in ("L1.16-16", "L2", "L0") and k[1] in ("r.", "Rs.", "R.", "rr.") and k[3] == "SIM"}
+            d2 = {k: v for k, v in deep.items() if k[0] in ("L1.16-16", "L0") and k[1] in ("r.", "Rs.", "R.", "rr.") and k[3] == "SIM" and k[2] in ("prio", "rr")}
             out_d2 = explore_many(pool, d2, 2, JUDGE)
             _report(rep, "deep_G1_d2", out_d2, 2)
         # line-level granularity (G2): the check-then-act windows inside stop()/_async_step are one or two bytecode lines wide
@@ -122,9 +122,9 @@ def run(tier, rep):
         _report(rep, "G2_line_level_L0_other", out_g, 1 if tier == "quick" else 2)
         rest = {k: v for k, v in g2.items() if k[0] != "L0"}
         # a new episode after a stop() that was preempted at line level (state flips vs queued _stopping tasks)
-        rest2 = {k: v for k, v in rest.items() if k[1] in ("R.R.", "r.r.") and (tier == "thorough" or k[2] == "rr")}
-        out_g0 = explore_many(pool, rest2, 1, JUDGE)
-        _report(rep, "G2_line_level_L1_two_episodes", out_g0, 1)
+        rest2 = {k: v for k, v in rest.items() if k[1] in ("R.R.", "r.r.")}
+        out_g0 = explore_many(pool, rest2, 0 if tier == "quick" else 1, JUDGE)
+        _report(rep, "G2_line_level_L1_two_episodes", out_g0, 0 if tier == "quick" else 1)
         rest1 = {k: v for k, v in rest.items() if k not in rest2}
         out_g0 = explore_many(pool, rest1, 0 if tier == "quick" else 1, JUDGE)
         _report(rep, "G2_line_level_L1", out_g0, 0 if tier == "quick" else 1)
